@@ -500,6 +500,12 @@ func (w *World) writeSites(h *HeapCtx, in ssa.Instruction, visiting map[string]b
 		if sc := c.StaticCallee(); sc != nil && calleeName(sc) == "maps.Keys" {
 			return
 		}
+		if sc := c.StaticCallee(); sc != nil && calleeName(sc) == "sort.Strings" {
+			m := map[string]*Sort{}
+			h.arraysOfTypeMem(types.Typ[types.String], m)
+			add(m, WriteSite{root: c.Args[0], kind: LocElems})
+			return
+		}
 		if sc := c.StaticCallee(); sc != nil && calleeName(sc) == "sort.Slice" {
 			if mi, ok := c.Args[0].(*ssa.MakeInterface); ok {
 				if st, ok := mi.X.Type().Underlying().(*types.Slice); ok {
